@@ -88,7 +88,9 @@ def setup():
 # values
 # ------------------------------------------------------------------------------------------------
 
-DTYPES = ["int64", "int32", "float64", "float32", "complex128", "bool", "uint8"]
+DTYPES = ["int64", "int32", "int16", "float64", "float32", "float16", "complex128", "complex64", "bool", "uint8"]
+KIND = {"int64": "i", "int32": "i", "int16": "i", "uint8": "u", "float64": "f", "float32": "f", "float16": "f",
+        "complex128": "c", "complex64": "c", "bool": "b"}
 
 
 def gen_value(w, depth=0):
@@ -101,6 +103,8 @@ def gen_value(w, depth=0):
         return ["float", round(w.uniform(-1e3, 1e3), 6)]
     if r < 0.22:
         return ["complex", round(w.uniform(-2, 2), 4), round(w.uniform(-2, 2), 4)]
+    if r < 0.235:
+        return ["npscalar", w.choice(["float32", "float16", "int16", "int32", "complex64"]), round(w.uniform(-100, 100), 3)]
     if r < 0.25:
         return ["bool", w.random() < 0.5]
     if r < 0.33:
@@ -143,6 +147,8 @@ def build_value(spec):
         return spec[1]
     if k == "complex":
         return complex(spec[1], spec[2])
+    if k == "npscalar":
+        return np.dtype(spec[1]).type(spec[2])
     if k == "none":
         return None
     if k in ("arr", "tensor"):
@@ -235,6 +241,9 @@ def eqv(exp, got, path="$"):
         if exp.dtype != got.dtype or exp.shape != got.shape:
             return f"{path}: dtype/shape {got.dtype}{got.shape} != {exp.dtype}{exp.shape}"
         return None if np.array_equal(exp, got) else f"{path}: array values differ"
+    if isinstance(exp, np.generic) and not isinstance(exp, np.bool_):
+        ok = isinstance(got, np.generic) and got.dtype == exp.dtype and got == exp
+        return None if ok else f"{path}: expected {exp.dtype} scalar {exp!r}, got {got!r} ({getattr(got, 'dtype', type(got).__name__)})"
     if isinstance(exp, bool):
         ok = isinstance(got, (bool, np.bool_)) and bool(got) == exp
         return None if ok else f"{path}: expected bool {exp}, got {got!r}"
@@ -293,19 +302,47 @@ def eqv(exp, got, path="$"):
 # ------------------------------------------------------------------------------------------------
 
 
+def _variant(w, spec):
+    """Same shape and kind of data, different width (the overwrite keeps the layout but not the dtype)."""
+    if spec[0] == "arr":
+        same_kind = [d for d in DTYPES if KIND[d] == KIND[spec[1]] and d != spec[1]]
+        if same_kind:
+            return ["arr", w.choice(same_kind), spec[2], w.getrandbits(24)]
+    if spec[0] == "float":
+        return ["npscalar", w.choice(["float32", "float16"]), round(w.uniform(-100, 100), 3)]
+    if spec[0] == "int":
+        return ["npscalar", w.choice(["int16", "int32"]), float(w.randint(-30000, 30000))]
+    if spec[0] == "npscalar":
+        return ["float", round(w.uniform(-1e3, 1e3), 6)] if spec[1].startswith("float") else ["int", w.randint(-10**6, 10**6)]
+    return None
+
+
 def gen_case(streams, tier):
     w, f = streams["workload"], streams["fault"]
     ops = []
     n_handles = 0
+    last = {}  # attribute name -> last value spec generated for it
+
+    def value_for(name):
+        v = None
+        if name in last and w.random() < 0.4:
+            v = _variant(w, last[name])
+        if v is None:
+            v = gen_value(w)
+        last[name] = v
+        return v
+
     for _ in range(w.randint(2, 12)):
         r = w.random()
         hs = list(range(n_handles))
         if r < 0.18 or not hs:
-            attrs = {n: gen_value(w) for n in w.sample(NAMES, w.randint(0, 4))}
+            attrs = {n: value_for(n) for n in w.sample(NAMES, w.randint(0, 4))}
             ops.append({"op": "new", "attrs": attrs})
             n_handles += 1
         elif r < 0.36:
-            ops.append({"op": "set", "h": w.choice(hs), "name": w.choice(NAMES), "value": gen_value(w)})
+            nm = w.choice(NAMES)
+            ops.append({"op": "set", "h": w.choice(hs), "name": nm, "value": value_for(nm),
+                        "as_attribute_object": w.random() < 0.35})
         elif r < 0.42:
             ops.append({"op": "del", "h": w.choice(hs), "name": w.choice(NAMES)})
         elif r < 0.62:
@@ -575,6 +612,13 @@ def _run_case(case):
                         val = build_value(op["value"])
                         if h.ro:
                             expect_error(lambda: setattr(h.ds, op["name"], val), "set_readonly")
+                        elif op.get("as_attribute_object"):
+                            # ds.name = qp.data.attribute(value) is the documented way to REPLACE an
+                            # existing attribute (a plain value over an existing key is rejected by h5py)
+                            counters["values_written"] += 1
+                            counters["attribute_object_assignments"] = counters.get("attribute_object_assignments", 0) + 1
+                            setattr(h.ds, op["name"], _ENV["qp"].data.attribute(val))
+                            h.attrs[op["name"]] = build_model(op["value"])
                         elif op["name"] in h.attrs:
                             # Re-assigning an existing attribute is rejected by h5py ("name already
                             # exists") in this version.  The property is about values reading back
